@@ -22,6 +22,10 @@ TARGETS = [
         ("VelocityControl", "is_unlimited", "C12", "C12_fn_is_unlimited"),
         ("VelocityControl", "velocity", "C12", "C12_fn_velocity"),
         ("VelocityControl", "insert", "C12", "C12_fn_insert"),
+        ("VelocityControl", "get_state", "C12", "C12_fn_get_state"),
+        ("VelocityControl", "new_with_intervals", "C12", "C12_fn_new_with_intervals"),
+        ("VelocityControl", "new_unlimited", "C12", "C12_fn_new_unlimited"),
+        ("VelocityControl", "new", "C12", "C12_fn_new"),
     ]),
     dict(area="Simple", rel="vls-core/src/policy/simple_validator.rs", consts=["vls-core/src/policy/mod.rs"], externals={}, fns=[
         ("SimpleValidator", "validate_delay", "C05", "C05_fn_validate_delay"),
